@@ -14,6 +14,7 @@ import (
 	metav1 "k8s.io/apimachinery/pkg/apis/meta/v1"
 	"k8s.io/apimachinery/pkg/types"
 
+	"github.com/koordinator-sh/koordinator/apis/extension"
 	schedulingconfig "github.com/koordinator-sh/koordinator/pkg/scheduler/apis/config"
 	"github.com/koordinator-sh/koordinator/pkg/scheduler/frameworkext/topologymanager"
 	"github.com/koordinator-sh/koordinator/pkg/util/bitmask"
@@ -514,9 +515,61 @@ func TestVerifC06Hist(t *testing.T) {
 		}
 		rm := &resourceManager{numaAllocateStrategy: strategy, topologyOptionsManager: tom, nodeAllocations: map[string]*NodeAllocation{}}
 		node := &corev1.Node{ObjectMeta: metav1.ObjectMeta{Name: c06Node}}
-		h.Op("init %d %s %s", maxRef, c06Blk(all), c06Blk(reserved))
-		h.Tag(fmt.Sprintf("topo:%dx%dx%dx%d", dims[0], dims[1], dims[2], dims[3]))
+		// cpu amplification ratio of the node annotation (num/den; none = 0/1).  Only ratios that are exact in
+		// binary floating point, so that extension.Amplify is the integer ceil(x*num/den) (checked on every use).
+		ratioNum, ratioDen := int64(0), int64(1)
+		if r.Chance(1, 2) {
+			rt := [][2]int64{{1, 1}, {3, 2}, {2, 1}, {3, 1}}[r.Intn(4)]
+			ratioNum, ratioDen = rt[0], rt[1]
+			extension.SetNodeResourceAmplificationRatios(node, map[corev1.ResourceName]extension.Ratio{
+				corev1.ResourceCPU: extension.Ratio(float64(ratioNum) / float64(ratioDen))})
+		}
+		amp := func(x int64) int64 { return c06Amplify(x, ratioNum, ratioDen) }
+		// amplified capacity, computed by the oracle from the RAW topology
+		capAmp := map[int]int64{}
+		for k, v := range capCell {
+			capAmp[k] = v
+			if k%16 == 0 {
+				capAmp[k] = amp(v)
+			}
+		}
+		plugin := &Plugin{resourceManager: rm, topologyOptionsManager: tom}
+		{
+			var sb strings.Builder
+			fmt.Fprintf(&sb, "cfg %d %d %d %d %d %d %d %d %d", maxRef, vB(strategy == schedulingconfig.NUMAMostAllocated), ratioNum, ratioDen,
+				topo.NumCPUs, topo.NumCores, topo.NumNodes, topo.NumSockets, len(all))
+			for _, c := range all {
+				info := topo.CPUDetails[c]
+				fmt.Fprintf(&sb, " %d %d %d %d", c, info.CoreID, info.NodeID, info.SocketID)
+			}
+			fmt.Fprintf(&sb, " %s %d", c06Blk(reserved), len(capCell))
+			for _, k := range c06SortedCellKeys(capCell) {
+				fmt.Fprintf(&sb, " %d %d", k, capCell[k])
+			}
+			h.Op("%s", sb.String())
+		}
+		h.Tag(fmt.Sprintf("topo-sockets:%d-nodes:%d-threads:%d", dims[0], dims[0]*dims[1], dims[3]))
 		h.Tag(fmt.Sprintf("maxref:%d", maxRef))
+		h.Tag(fmt.Sprintf("cpu-ratio:%d/%d", ratioNum, ratioDen))
+		// the options stored in the manager must be the same before and after every scheduling step
+		storedOK := func(what string) {
+			st := tom.GetTopologyOptions(c06Node)
+			got := map[int]int64{}
+			for _, nr := range st.NUMANodeResources {
+				for name, q := range nr.Resources {
+					got[nr.Node*16+c06Dim(name)] = q.MilliValue()
+				}
+			}
+			same := len(got) == len(capCell) && st.AmplificationRatios == nil
+			for k, v := range capCell {
+				if got[k] != v {
+					same = false
+				}
+			}
+			if !same {
+				h.Fail("C06:topology-options-mutated", "%s: stored NUMA capacities are now %v (ratios %v), were %v", what, got, st.AmplificationRatios, capCell)
+			}
+		}
 
 		shadow := map[int]*c06Shadow{}
 		allDrawn := true
